@@ -2,6 +2,7 @@ package main
 
 import (
 	"fmt"
+	"go/ast"
 	"go/token"
 	"go/types"
 	"sort"
@@ -202,11 +203,25 @@ func checkC16(c *Check) {
 			entries = append(entries, f)
 		}
 	}
-	if f := p.FuncByName("pkg/database.CreateTableDepthMap"); f != nil {
-		entries = append(entries, f)
+	// the exported helpers of the package the two generators call (the depth
+	// computation is one: callers outside the package may start there too)
+	nGen := len(entries)
+	seenEntry := map[*ssa.Function]bool{}
+	for _, e := range entries[:nGen] {
+		seenEntry[e] = true
 	}
-	if len(entries) < 3 {
-		c.Undecidedf("ANCHOR", "database entries", "-", "ScriptView.GenerateDatabaseScriptCreate / ProcessModSysls / CreateTableDepthMap not found")
+	for _, e := range entries[:nGen] {
+		eachCall(e, func(cl ssa.CallInstruction) {
+			sc := staticCallee(cl)
+			if sc != nil && !seenEntry[sc] && sc.Parent() == nil && sc.Signature.Recv() == nil &&
+				fnPkgPath(sc) == repoMod+"/pkg/database" && ast.IsExported(sc.Name()) {
+				seenEntry[sc] = true
+				entries = append(entries, sc)
+			}
+		})
+	}
+	if nGen < 2 || len(entries) < 3 {
+		c.Undecidedf("ANCHOR", "database entries", "-", "ScriptView.GenerateDatabaseScriptCreate / ProcessModSysls and the exported depth computation they call not found")
 		return
 	}
 	runGenEngines(c, genOpts{entries: entries, order: true, guard: true, deref: true, rec: true})
@@ -223,17 +238,32 @@ func checkC16(c *Check) {
 	}
 	// delta path: sorted by name (information: the modify path must sort its table list)
 	sorted := false
+	var modif []*ssa.Function
+	seenMod := map[*ssa.Function]bool{}
 	for _, f := range methodsOfType(p, "pkg/database", "ScriptView") {
 		if strings.Contains(strings.ToLower(f.Name()), "modif") {
-			eachCall(f, func(cl ssa.CallInstruction) {
-				if isSanitiserCall(cl) {
-					sorted = true
-				}
-				if sc := staticCallee(cl); sc != nil && isRepoFn(sc) && strings.Contains(strings.ToLower(sc.Name()), "sort") {
-					sorted = true
-				}
-			})
+			modif = append(modif, f)
+			seenMod[f] = true
 		}
+	}
+	// with the steps of the modify path it hands its work to (same package)
+	for k := 0; k < len(modif); k++ {
+		eachCall(modif[k], func(cl ssa.CallInstruction) {
+			if isSanitiserCall(cl) {
+				sorted = true
+			}
+			sc := staticCallee(cl)
+			if sc == nil || !isRepoFn(sc) {
+				return
+			}
+			if strings.Contains(strings.ToLower(sc.Name()), "sort") {
+				sorted = true
+			}
+			if !seenMod[sc] && fnPkgPath(sc) == repoMod+"/pkg/database" {
+				seenMod[sc] = true
+				modif = append(modif, sc)
+			}
+		})
 	}
 	c.Cond(sorted, "DELTA-ORDER", "modify path sorts its tables", "-", "the delta path orders its table/column lists with an explicit sort", "the delta path no longer sorts its table/column lists")
 }
